@@ -1262,6 +1262,38 @@ package avro
 //@   loop 1 invariant [C12] regFree()
 //@   loop 1 decreases len(schema.Union) - rangeindex
 
+// ---------------------------------------------------------------- build.go: struct field naming (C15, C04, C05)
+// The documented rule: a Go field takes part under its JSON name (the part of the json tag before the first comma, the
+// Go name when that is empty); unexported fields and fields tagged json:"-" or bq:"-" are excluded ("-").
+//@ spec jsonTagName(sf ptr) bytes = sub(tagget(sf.Tag, "json"), 0, cutidx(tagget(sf.Tag, "json"), 44))
+//@ spec fieldExcluded(sf ptr) bool = len(sf.PkgPath) != 0 || streq(tagget(sf.Tag, "bq"), "-") || streq(jsonTagName(sf), "-")
+//@ spec fieldNameKey(sf ptr) uint64 = fieldExcluded(sf) ? strkey("-") : (len(jsonTagName(sf)) == 0 ? strkey(sf.Name) : strkey(jsonTagName(sf)))
+//@ func nameForField
+//@   props C05, C04, C15, C06
+//@   ensures [C15,C04] fieldExcluded(sf) ==> streq(res, "-")
+//@   ensures [C15,C04] !fieldExcluded(sf) && len(jsonTagName(sf)) == 0 ==> samebytes(res, sf.Name)
+//@   ensures [C15,C04] !fieldExcluded(sf) && len(jsonTagName(sf)) != 0 ==> samebytes(res, jsonTagName(sf))
+//     the name as a map key is a function of the field (buildRecordCodec relies on it to tell fields apart)
+//@   ensures [C05,C04] strkey(res) == fieldNameKey(sf)
+//@   ensures 0 <= len(res)
+//@   splitreturns
+//@   pure
+
+// omitEmpty: the json tag's option list (everything after the first comma) contains the option "omitempty".
+// hasopt(s) is that statement as a recursive ghost function over the comma-separated list s.
+//@ ghost hasopt(s bytes) bool
+//@ spec cutAfter(s bytes) bytes = (cutidx(s, 44) < len(s)) ? sub(s, cutidx(s, 44) + 1, len(s)) : sub(s, 0, 0)
+//@ axiom hasopt_unfold(s bytes): hasopt(s) == (len(s) > 0 && (streq(sub(s, 0, cutidx(s, 44)), "omitempty") || hasopt(cutAfter(s))))
+//@ func omitEmpty
+//@   props C05, C04, C15, C06
+//@   let opts0 := cutAfter(tagget(sf.Tag, "json"))
+//@   ensures [C15,C02,C13] res == hasopt(opts0)
+//@   pure
+//@   loop 1 invariant 0 <= len(opts) && hasopt(opts) == hasopt(opts0)
+//@   loop 1 uses hasopt_unfold(opts)
+//@   loop 1 uses cutidx_def(opts, 44)
+//@   loop 1 decreases len(opts)
+
 // trusted (reflect.StructField is outside the subset; a bounded stand-in runs on the real code).  Scope of the contract:
 // record schemas whose field names are pairwise distinct.  With a repeated name both schema fields get the offset of the
 // same struct field, so disjointFields (part of wfc) does not hold for them.
